@@ -379,3 +379,60 @@ M('C11', 'output-differ-patches-other-key', NBD, '            di.patch("data", d
 T('C11', 'twin-builder-temp', LCS, '    return di.validated()', '    result = di.validated()\n    return result')
 T('C11', 'twin-early-empty', SNK, '    subpath = "/".join((path, "*"))\n    diffit = config.differs[subpath]\n\n    di = SequenceDiffBuilder()\n    i0, j0',
   '    if not a and not b:\n        return []\n    subpath = "/".join((path, "*"))\n    diffit = config.differs[subpath]\n\n    di = SequenceDiffBuilder()\n    i0, j0')
+
+# ------------------------------------------------------------------------------------------ C14
+M('C14', 'table-misses-output-metadata', NBD, "        '/cells/*/outputs/*/metadata': not metadata,\n", '', 'R14.1')
+M('C14', 'execution-count-misspelled', NBD, "        '/cells/*/outputs/*': False if details else ('execution_count',),", "        '/cells/*/outputs/*': False if details else ('execution_counts',),", 'R14.1')
+M('C14', 'flags-swapped', ARGS, '            args.sources, args.outputs, args.attachments, args.metadata,', '            args.outputs, args.sources, args.attachments, args.metadata,', 'R14.2')
+M('C14', 'output-differ-drops-config', NBD, '        dd_conj = diff(a_conj, b_conj, path=path, config=config)', '        dd_conj = diff(a_conj, b_conj)', 'R14.3')
+M('C14', 'output-differ-drops-path-only', NBD, '        dd_conj = diff(a_conj, b_conj, path=path, config=config)', '        dd_conj = diff(a_conj, b_conj, config=config)', 'R14.3')
+M('C14', 'dict-differ-drops-config', GEN, '            dd = diffit(avalue, bvalue, path=subpath, config=config)', '            dd = diffit(avalue, bvalue, path=subpath)', 'R14.3')
+M('C14', 'true-installs-default-differ', NBD, '        if subkeys is True:\n            notebook_differs[path] = diff_ignore', '        if subkeys is True:\n            notebook_differs[path] = diff', 'R14.4')
+M('C14', 'key-filter-inverted', NBD, '            if e.key not in ignore_keys:', '            if e.key in ignore_keys:', 'R14.4')
+M('C14', 'ignore-returns-shared-list', NBD, '    """Always returns an empty diff"""\n    return []', '    """Always returns an empty diff"""\n    return _EMPTY', 'R14.4',
+  edits=[(NBD, 'def diff_ignore(*args, **kwargs):', '_EMPTY = []\n\n\ndef diff_ignore(*args, **kwargs):')])
+T('C14', 'twin-positional-forward', NBD, '        dd_conj = diff(a_conj, b_conj, path=path, config=config)', '        dd_conj = diff(a_conj, b_conj, path, config)')
+T('C14', 'twin-keyword-call', ARGS, '        set_notebook_diff_targets(\n            args.sources, args.outputs, args.attachments, args.metadata,\n            args.id, args.details)',
+  '        set_notebook_diff_targets(\n            sources=args.sources, outputs=args.outputs, attachments=args.attachments, metadata=args.metadata,\n            identifier=args.id, details=args.details)')
+
+# ------------------------------------------------------------------------------------------ C16
+M('C16', 'highlight-without-use-color', PP, '    if config.use_color and not prefix.strip() and (is_markdown or config.language):', '    if not prefix.strip() and (is_markdown or config.language):', 'R16.1')
+M('C16', 'colorama-used-directly', PP, '    config.out.write("%s%s %s:%s\\n" % (config.INFO, msg, path, config.RESET))',
+  '    config.out.write("%s%s %s:%s\\n" % (colorama.Fore.BLUE, msg, path, config.RESET))', 'R16.1')
+M('C16', 'git-color-words-kept', PP, '    if not config.use_color:\n        cmd = cmd.replace(" --color-words", "")\n    elif not config.color_words:',
+  '    if not config.color_words:', 'R16.1')
+M('C16', 'col-const-indexed-by-true', PP, '    def INFO(self):\n        return col_const[self.use_color].INFO', '    def INFO(self):\n        return col_const[True].INFO', 'R16.1')
+M('C16', 'literal-escape-code', PP, "    config.out.write(\"%s%s: %s\\n\" % (prefix, k, v))", "    config.out.write(\"\\x1b[1m%s%s: %s\\n\" % (prefix, k, v))", 'R16.1')
+M('C16', 'entry-printer-loses-replace-arm', PP, '    elif op == DiffOp.REPLACE:\n        if config.should_ignore_path(nextpath):', '    elif op == "replaced":\n        if config.should_ignore_path(nextpath):', 'R16.2')
+M('C16', 'diff-render-no-fallback', PP, '    else:\n        return diff_render_with_difflib(a, b, config)', '    else:\n        raise RuntimeError("no diff tool")', 'R16.2')
+M('C16', 'header-printed-for-empty-diff', PP,
+  '    if di:\n        path = ""\n        atime = "  " + file_timestamp(afn)\n        btime = "  " + file_timestamp(bfn)\n        config.out.write(notebook_diff_header.format(\n            afn=afn, bfn=bfn, atime=atime, btime=btime))\n        pretty_print_diff(a, di, path, config)',
+  '    path = ""\n    atime = "  " + file_timestamp(afn)\n    btime = "  " + file_timestamp(bfn)\n    config.out.write(notebook_diff_header.format(\n        afn=afn, bfn=bfn, atime=atime, btime=btime))\n    if di:\n        pretty_print_diff(a, di, path, config)', 'R16.3')
+M('C16', 'rmtree-not-in-finally', PP,
+  "        r = re.compile(r\"^\\\\ No newline at end of file\\n?\", flags=re.M)\n        output, n = r.subn(\"\", output)\n        assert n <= 2, 'unexpected output from external diff renderer'\n    finally:\n        shutil.rmtree(td)",
+  "        r = re.compile(r\"^\\\\ No newline at end of file\\n?\", flags=re.M)\n        output, n = r.subn(\"\", output)\n        assert n <= 2, 'unexpected output from external diff renderer'\n    except OSError:\n        raise\n    shutil.rmtree(td)", 'R16.4')
+M('C16', 'which-diff-launches-git', PP, "    elif config.use_diff and which('diff'):\n        return diff_render_with_diff(a, b)", "    elif config.use_diff and which('diff'):\n        return diff_render_with_git(a, b, config)", 'R16.4')
+T('C16', 'twin-use-color-last-conjunct', PP, '    if config.use_color and not prefix.strip() and (is_markdown or config.language):', '    if not prefix.strip() and (is_markdown or config.language) and config.use_color:')
+T('C16', 'twin-new-plain-constant', PP, "DIFF_ENTRY_END = '\\n'", "DIFF_ENTRY_END = '\\n'\nSECTION_RULE = '-' * 20")
+
+# ------------------------------------------------------------------------------------------ C19
+RST = 'docs/source/config.rst'
+M('C19', 'difftool-loses-webtool', CFGPY, 'class NbDiffTool(GitDiff, WebTool):', 'class NbDiffTool(GitDiff):', 'R19.1')
+M('C19', 'gitmerge-not-a-merge', CFGPY, 'class GitMerge(Merge):\n    pass', 'class GitMerge(_Diffing):\n    pass', 'R19.1')
+M('C19', 'docs-claim-extra-member', RST, '    Options to web tool commands (NbDiffTool, NbMergeTool).', '    Options to web tool commands (NbDiffTool, NbMergeTool, NbDiffWeb).', 'R19.1')
+M('C19', 'web-before-own-port', CFGPY, 'class NbMergeTool(GitMerge, WebTool):\n    pass', 'class NbMergeTool(WebTool, GitMerge):\n    pass', 'R19.2',
+  edits=[(CFGPY, 'class WebTool(Web):\n    pass', 'class WebTool(Web):\n    details = Bool(None, allow_none=True, help="x").tag(config=True)')])
+M('C19', 'mro-not-reversed', CFGPY, '    for c in reversed(configurable.mro()):', '    for c in configurable.mro():', 'R19.3')
+M('C19', 'files-not-reversed', CFGPY, '    for path in path[::-1]:', '    for path in path:', 'R19.3')
+M('C19', 'cwd-lowest-priority', CFGPY, '    path.insert(0, os.getcwd())', '    path.append(os.getcwd())', 'R19.3')
+M('C19', 'defaults-after-disk', CFGPY,
+  '            recursive_update(config, config_instance(c).configured_traits(c), include_none)\n            if (c.__name__ in disk_config):\n                recursive_update(config, disk_config[c.__name__], include_none)',
+  '            if (c.__name__ in disk_config):\n                recursive_update(config, disk_config[c.__name__], include_none)\n            recursive_update(config, config_instance(c).configured_traits(c), include_none)', 'R19.3')
+M('C19', 'nested-dicts-replaced', CFGPY, '            recursive_update(target[k], v, include_none)\n', '            target[k] = dict(v)\n', 'R19.3')
+M('C19', 'config-applied-after-parse', ARGS,
+  '        return super(ConfigBackedParser, self).parse_known_args(args=args, namespace=namespace)',
+  '        ns, rest = super(ConfigBackedParser, self).parse_known_args(args=args, namespace=namespace)\n        for k, v in self._defaults.items():\n            setattr(ns, k, v)\n        return ns, rest', 'R19.4')
+M('C19', 'entry-key-renamed', CFGPY, "    'nbdiff-web': NbDiffWeb,", "    'nbdiffweb': NbDiffWeb,", 'R19.5')
+M('C19', 'driver-parser-wrong-prog', DDR, "    parser = ConfigBackedParser('git-nbdiffdriver',", "    parser = ConfigBackedParser('git-nbdiff',", 'R19.5')
+T('C19', 'twin-redefine-port-in-tool', CFGPY, 'class NbDiffTool(GitDiff, WebTool):\n    pass', 'class NbDiffTool(GitDiff, WebTool):\n    port = Integer(0, help="port").tag(config=True)')
+T('C19', 'twin-docs-reordered-members', RST, '    Options to web tool commands (NbDiffTool, NbMergeTool).', '    Options to web tool commands (NbMergeTool, NbDiffTool).')
